@@ -11,6 +11,16 @@ NOTE = ("Trusted: the symgo engine (fork of x/tools go/ssa/interp + SMT encoding
 
 # id -> (claim text, design ref)
 CLAIMS = {
+ "C05": ("repair.search on a store holding 0..4 (thorough 5) state records, each intact or damaged (scanner run to completion first, "
+         "checkState replaced for the empty metadata of the harness states): never a Go runtime error, 'none' when no intact state, "
+         "the newest intact state and its offset when intact states are the older ones; OpenDbStor opens a store only if it ends "
+         "with the shutdown marker (8 arbitrary tail bytes, header only, or no tail): otherwise an error, never a crash or a database. "
+         "repair.fix's file copy/rename, the concurrent scanner hand-off and mmap are outside.", "4 C05"),
+ "C33": ("SuDate (arith=int, Go's time arithmetic replaced by exact classical-formula intrinsics validated against the real time "
+         "package): NewDate accepts exactly the Gregorian dates and packs/unpacks the fields; Plus of a day offset (|k|<=61, thorough "
+         "440), of hours/minutes/seconds/ms within +-1 day, of years and of months, from any valid date of years 400..2999 (case-split "
+         "by century and month) equals an independent month-walking calendar reference and rejects exactly out-of-range results; "
+         "MinusDays/julian day, MinusMs inverse, Compare chronological, String->DateFromLiteral identity, AddMs(k) == Plus(ms=k).", "4 C33"),
  "C04": ("writeState/readState round trip for all 40-bit metadata offsets (records with offsets not below themselves rejected); "
          "scenario: a HeapStor database with one of five schema histories (plain, table created+persisted+dropped, view, alter create, "
          "rename), 1..2 committed rows with arbitrary 1-byte values, merge/persist points chosen, an uncommitted transaction in flight: "
